@@ -45,8 +45,8 @@ def run(pid, verif, repo, work, only=None):
     from trlint.facts import Facts
     from trlint.core import Tracer
     from trlint.report import Report
+    import importlib.util, importlib.machinery
     mod = importlib.import_module("trlint.props." + pid.lower())
-    import importlib.util
     spec = importlib.util.spec_from_file_location("check_runner", os.path.join(verif, "check"), loader=importlib.machinery.SourceFileLoader("check_runner", os.path.join(verif, "check")))
     runner = importlib.util.module_from_spec(spec)
     spec.loader.exec_module(runner)
